@@ -64,6 +64,30 @@ func runC04(c *Ctx) {
 				default:
 					R.FailPath("R04.1", key, pos, fn, "IsDest = "+isd.String()+" is neither constant false, constant true under an outer-source check, nor the comparison outer source == target", pstr)
 				}
+				// R04.4 (ack-less forms): a direct TCP reply that this path admits WITHOUT the ACK flag (a bare RST) has no
+				// meaningful acknowledgement number (it is 0 on the wire): the path may not depend on that field, or the reply that
+				// proves arrival is dropped and the destination is never marked
+				if cls.Form == "tcp-direct" && m.roles.Variant == "syn" {
+					admitsNoAck := false
+					for _, as := range flagAssignments(pi.Atoms) {
+						if !as["ACK"] {
+							admitsNoAck = true
+						}
+					}
+					if admitsNoAck {
+						onAck := ""
+						for _, a := range pi.Atoms {
+							if a.Cond.Has(func(x *core.Term) bool { return x.Op == "field" && x.Name == "Ack" }) {
+								onAck = a.String()
+							}
+						}
+						if onAck == "" {
+							R.OK("R04.4", key+"/ackless", pos, fn, "a reply without the ACK flag is accepted without looking at its acknowledgement number")
+						} else {
+							R.FailPath("R04.4", key+"/ackless", pos, fn, "a direct reply that may lack the ACK flag (a bare RST) is accepted only under a condition on its acknowledgement number ("+onAck+"): that field is 0 / undefined without ACK, so the RST that proves the probe arrived is dropped and the destination is never marked", pstr)
+						}
+					}
+				}
 				// R04.4 the other direction of "exactly when": on the reply forms that prove arrival for this protocol, a reply
 				// from the target must mark the destination – IsDest may not be constant false there
 				mustMark := false
